@@ -51,3 +51,15 @@ Theorem C13_planner_correct_bounded : forall (row : Type) (idx : row -> Z) a b f
   exec_plan idx P pl = spec_plan idx b P.
 Proof. exact repart_plan_correct_bounded. Qed.
 Print Assumptions C13_planner_correct_bounded.
+
+(* the planner, UNBOUNDED, for strictly increasing division vectors without force (the common case:
+   any lengths, any values): the generated plan exists and is accepted by the verified checker, hence
+   correct on every data set. What remains open (covered by the bounded theorem above and by the per-run
+   certification of every real plan) is the unbounded statement for repeated last values and for force. *)
+Theorem C13_planner_correct_strict : forall (row : Type) (idx : row -> Z) (a b : list Z) (P : list (list row)),
+  strict_incr a = true -> strict_incr b = true -> (2 <= length a)%nat -> (2 <= length b)%nat ->
+  nthZ a 0 = nthZ b 0 -> lastZ a = lastZ b ->
+  respects idx a P -> parts_sorted idx P ->
+  exists pl, repart_plan a b false = Some pl /\ exec_plan idx P pl = spec_plan idx b P.
+Proof. exact repart_plan_correct_strict. Qed.
+Print Assumptions C13_planner_correct_strict.
